@@ -2,6 +2,11 @@
 records how it was launched.  Standalone - standard library only, never imports
 chuk_mcp (its environment may be just {"A": "1"}: no PYTHONPATH, no PATH).
 
+(When the environment has C20_WITNESS_DIR naming an existing directory, the record
+goes there instead - used for servers that share command and args and differ
+only in env.  The file is also installed as an executable '#!<python>' wrapper
+under a bare command name, to observe which PATH resolved it.)
+
 The harness copies this file into a per-server directory of a per-case temp
 directory and names that copy as the first configured argument, so the record
 location is learnt from the script's own path: no token has to travel through
@@ -19,6 +24,10 @@ import os
 import sys
 
 HERE = os.path.dirname(os.path.abspath(__file__))
+# servers that must share command AND args can only differ in env: then the record directory comes from there
+_SINK = os.environ.get("C20_WITNESS_DIR")
+if _SINK and os.path.isdir(_SINK):
+    HERE = _SINK
 LOG = os.path.join(HERE, "events.jsonl")
 PID = os.getpid()
 
